@@ -347,8 +347,15 @@ impl PublishBuilder {
             self.packet,
             Some(payload),
         );
+        // completes exchange if this future is dropped
+        let guard =
+            rx.is_ok().then(|| ReceiveGuard { id: Some(idx), shared: self.shared.clone() });
         async move {
-            rx?.await
+            let result = rx?.await;
+            if let Some(mut guard) = guard {
+                guard.id.take();
+            }
+            result
                 .map(move |_| PublishReceived { packet_id: Some(idx), shared: self.shared })
                 .map_err(|_| SendPacketError::Disconnected)
         }
@@ -411,6 +418,20 @@ impl PublishBuilder {
             let _ = tx.send(());
 
             rx?.await.map(|_| ()).map_err(|_| SendPacketError::Disconnected)
+        }
+    }
+}
+
+/// Publish (QoS 2) is sent, `PublishReceived` is not created yet
+struct ReceiveGuard {
+    id: Option<NonZeroU16>,
+    shared: Rc<MqttShared>,
+}
+
+impl Drop for ReceiveGuard {
+    fn drop(&mut self) {
+        if let Some(id) = self.id.take() {
+            self.shared.abandon_publish(id);
         }
     }
 }
